@@ -146,8 +146,58 @@ def gen_c04(rng, tier):
     return gen_seq(rng, tier)
 
 
+def gen_stale_trial(rng, tier):
+    """a trial admitted in one half-open episode is still in flight when the breaker re-opens and half-opens again;
+    the later episode is filled; only then is the old trial cancelled (or completes) — it must not free a slot"""
+    d = gen_cfg(rng, "conc")
+    d["size"] = rng.choice([1, 2, 3])
+    d.pop("min", None)
+    d.pop("slow", None)
+    d.pop("sr", None)
+    d["fr"] = rng.choice(["1/2", "1/1"])
+    p = d["permitted"] = rng.choice([1, 2, 2, 3])
+    w = d["wait"]
+    ops = ["manual force_open", "adv %d" % w]
+    c = 1
+    old = []
+    for _ in range(rng.randint(1, max(1, p - 1)) if p > 1 else 1):
+        ops += ["arrive %d inner=%s" % (c, rng.choice(["0:never", "5000:ok", "5000:err1"])), "poll %d" % c]
+        old.append(c)
+        c += 1
+    if p > 1 and rng.random() < 0.7:
+        ops += ["arrive %d inner=0:err1" % c, "poll %d" % c]       # a failing trial re-opens the breaker
+        c += 1
+    else:
+        ops.append("manual force_open")
+    if rng.random() < 0.3:
+        ops.append("probe views")
+    ops.append("adv %d" % rng.choice([w, w, w + 1]))
+    fill = []
+    for _ in range(p):
+        ops += ["arrive %d inner=%s" % (c, rng.choice(["500:ok", "500:ok", "0:never"])), "poll %d" % c]
+        fill.append(c)
+        c += 1
+    for x in old:
+        r = rng.random()
+        if r < 0.6:
+            ops.append("drop %d" % x)
+        elif r < 0.8:
+            ops += ["adv 1", "poll %d" % x]
+    for _ in range(rng.randint(1, 3)):
+        ops += ["arrive %d inner=%s" % (c, rng.choice(["500:ok", "0:ok"])), "poll %d" % c]
+        c += 1
+    if rng.random() < 0.5:
+        ops += ["drop %d" % rng.choice(fill), "arrive %d inner=0:ok" % c, "poll %d" % c]
+        c += 1
+    ops += ["adv 500", "settle", "probe views"]
+    return {"header": header(d), "ops": ops}
+
+
 def gen_c09(rng, tier):
-    return gen_conc(rng, tier, halfopen_bias=True) if rng.random() < 0.85 else gen_conc(rng, tier)
+    r = rng.random()
+    if r < 0.2:
+        return gen_stale_trial(rng, tier)
+    return gen_conc(rng, tier, halfopen_bias=True) if r < 0.88 else gen_conc(rng, tier)
 
 
 # ----------------------------------------------------------------------------- monitors
